@@ -308,6 +308,12 @@ func (t *tlopen) handle(cs *connState) message {
 	}
 	defer ref.DecRef()
 
+	// Only one open may be in progress on a fid at a time: the check of
+	// ref.opened below and its update must not interleave with another
+	// Tlopen on the same fid.
+	ref.openMu.Lock()
+	defer ref.openMu.Unlock()
+
 	var (
 		qid    QID
 		ioUnit uint32
